@@ -9,8 +9,10 @@ byte-wise order of the hashes; it is *proved* for the concrete base32hex encoder
 used (`NoCollisionAt`), never for the covering (non-existence) arguments.
 
 Every theorem is stated for an arbitrary combination of repairs `fx`; the hypotheses of the form
-`fx.wrap = true ∨ NoWrap …` are the explicit decidable side conditions the proof forces for the code
-as it is (`asIs`, all switches off): they are exactly the recorded findings.
+`fx.wrap = true ∨ NoWrap …` are the explicit decidable side conditions the proof forces when a repair
+is not applied.  For the code as it is (`current`: `apex`, `wild`, `deleg` applied) only `NoWrap` and
+`NoOptOut` remain — the two open findings; for the pinned snapshot (`pinned`, all switches off) all
+five were needed.
 -/
 import HickoryVerif.Proofs.C04
 import HickoryVerif.Proofs.C09Gate
@@ -767,9 +769,10 @@ theorem wildcard_nodata_sound (hE : EncOrd enc) (hwf : HashWF H recs)
 For every repair combination `fx`, hash function `H`, order-embedding encoder `enc`, query name,
 type, SOA name, record list, limits, and every well-formed zone view `Z` the records are consistent
 with.  For the repaired code (`fx = allFixed`) the side conditions `hw ho hd hx ha` hold by `Or.inl
-rfl` — these are the full-strength statements; for the code as it is (`fx = asIs`) they are the
-explicit decidable restrictions of the input (`_partial` reading), and `Proofs/C09Findings.lean` has
-a kernel-checked counter-example outside each of them. -/
+rfl` — these are the full-strength statements; for the code as it is (`fx = current`) `hd hx ha` hold
+the same way and `hw ho` are explicit decidable restrictions of the input (`_partial` reading,
+`Proofs/C09Main.lean`), with a kernel-checked counter-example outside each of them in
+`Proofs/C09Findings.lean`. -/
 
 /-- collision-freeness of the hash at the names a proof for `ql` talks about -/
 def NoCollisions (H : Name → Bytes) (Z : ZoneView) (ql : List Bytes) : Prop :=
